@@ -78,6 +78,9 @@ func gen(prop, tier string, r *rand.Rand, idx int) any {
 	if prop == "C08" {
 		sc.Mode = []string{"barrier", "dep", "dep", "free"}[r.IntN(4)]
 	}
+	if prop == "C12" && r.IntN(6) == 0 {
+		sc.Mode = "dep" // tasks that depend on each other: every submitted task gets a worker as soon as one is idle
+	}
 	nrOverride := 0
 	nr := 1 + r.IntN(3)
 	id := 0
